@@ -5,7 +5,7 @@ Inductive step (DESIGN 2.3): the pre-state is ANY container satisfying the repre
 octaves symbolic), built directly; one operation with symbolic arguments is applied; the post-state must be
 what the set model predicts and must satisfy the invariant again.  The base case is the empty container.
 Together this covers operation histories of every length over the stated name pool."""
-from vf.claim import Claim, assume, enum, fork, pick, raises_, real
+from vf.claim import Claim, assume, enum, fork, pick, raises_, real, symbolic_mode
 from vf.ref import chords as RC
 from vf.ref import theory as T
 from vf.ref.theory import NAT, net, pc
@@ -36,6 +36,17 @@ def _pre(names, octs):
     nc = NoteContainer()
     nc.notes = [Note(n, o) for n, o in model]
     return nc, model
+
+
+def _respell(name, o):
+    """another spelling of the same pitch (harness bookkeeping on the concrete name; the octave may be symbolic)"""
+    v = NAT[name[0]] + net(name)
+    for l in T.LETTERS:
+        for a in ("", "#", "b", "##", "bb"):
+            v2 = NAT[l] + net(l + a)
+            if l + a != name and (v - v2) % 12 == 0:
+                return l + a, o + (v - v2) // 12
+    raise AssertionError(name)
 
 
 def _state(nc):
@@ -223,6 +234,14 @@ def c12_queries(i1: int, i2: int, i3: int, o1: int, o2: int, o3: int, j: int, oj
         shifted.notes = [Note(n, o) for n, o in model[:-1]] + [Note(model[-1][0], model[-1][1] + 1)]
         if nc == shifted:
             return False
+    if k >= 1:
+        # equality is about the pitches held, not their spelling
+        resp = [_respell(n, o) for n, o in model]
+        if all(o >= 0 for _, o in resp):
+            enh = NoteContainer()
+            enh.notes = [Note(n, o) for n, o in resp]
+            if not (nc == enh) or not (enh == nc):
+                return False
     pairs = [(model[a][0], model[b][0]) for a in range(len(model)) for b in range(a + 1, len(model))]
 
     def m(a, b):
@@ -233,6 +252,26 @@ def c12_queries(i1: int, i2: int, i3: int, o1: int, o2: int, o3: int, j: int, oj
     cons = all((m(a, b) in (0, 7) or (f and m(a, b) == 5)) or m(a, b) in (3, 4, 8, 9) for a, b in pairs)
     cons_nf = all((m(a, b) in (0, 7) or ((not f) and m(a, b) == 5)) or m(a, b) in (3, 4, 8, 9) for a, b in pairs)
     return bool(nc.is_perfect_consonant(f)) == perf and bool(nc.is_imperfect_consonant()) == imp and bool(nc.is_consonant(f)) == cons and bool(nc.is_dissonant(f)) == (not cons_nf)
+
+
+def c12_eq_enharmonic(j1: int, j2: int, o1: int, o2: int) -> bool:
+    """two containers holding the same pitch under different spellings are equal (both ways), and 'in' agrees.
+    Engine premise discharged here: CrossHair models a set of objects by __eq__ alone, so when Note is hashable the
+    claim also demands hash(a) == hash(b) for equal notes - otherwise a set/dict based equality in the repo would be
+    invisible to the symbolic run (the replay runs the real sets and decides whether the property is affected)."""
+    n1 = pick(POOL_T, j1)
+    n2 = pick(POOL_T, j2)
+    assume(_p(n1, o1) == _p(n2, o2))
+    a, b = Note(n1, o1), Note(n2, o2)
+    A, B = NoteContainer(), NoteContainer()
+    A.notes = [Note("C", 0), a]
+    B.notes = [Note("C", 0), b]
+    assume(_p(n1, o1) > 0)
+    if not (A == B) or not (B == A) or A != B or a not in B or b not in A:
+        return False
+    if symbolic_mode() and type(a).__hash__ is not None:
+        return hash(a) == hash(b)
+    return True
 
 
 def c12_consonance(i1: int, i2: int, i3: int, i4: int, f: bool) -> bool:
@@ -368,6 +407,7 @@ def claims(tier):
     if not q:
         for i0 in range(len(cpool)):
             cl.append(Claim("consonance4[%s]" % cpool[i0], c12_consonance, params={"pool": cpool, "k": 4, "i0": i0}, group="c12_consonance", pre=[lambda i1, i2, i3, i4: i1 == P["i0"] and 0 <= i2 < 6 and 0 <= i3 < len(P["pool"]) and 0 <= i4 < len(P["pool"])], timeout=3000, bounds="four-note containers, first name %s" % cpool[i0]))
+    cl.append(Claim("eq_enharmonic", c12_eq_enharmonic, pre=[lambda j1, j2, o1, o2: 0 <= j1 < len(POOL_T) and 0 <= j2 < len(POOL_T) and 0 <= o1 <= 9 and 0 <= o2 <= 9], timeout=900 if q else 2400, bounds="two spellings from the 21-name pool (enumerated) with symbolic octaves 0..9 naming the same pitch: ==, != and 'in' both ways; hash consistency when Note is hashable"))
     cl.append(Claim("probe_add_bare", c12_add_bare, params={"k": 1, "pool": POOL_T, "exclude_known": False}, group="c12_add_bare", pre=[], probe_only=True))
     cl.append(Claim("probe_add_bare_list", c12_add_bare_list, params={"pool": POOL_T, "exclude_known": False}, group="c12_add_bare_list", pre=[], probe_only=True))
     step = 13 if q else 9
